@@ -818,7 +818,7 @@ func applierReplay(args []string) {
 		if cs.rm != nil && digestJSON(cs.rm) != cs.digest && changedLater < 3 {
 			changedLater++
 			col.report(mismatch{Kind: "input-mutated", Key: fmt.Sprintf("input-mutated:result-changed-later:%d", changedLater),
-				Detail: "a state handed out by an earlier Apply call reads differently at the end of the run: a later call wrote into memory it shares",
+				Detail:   "a state handed out by an earlier Apply call reads differently at the end of the run: a later call wrote into memory it shares",
 				Expected: cs.digest, Actual: generic(cs.rm)})
 		}
 	}
